@@ -6,7 +6,7 @@ import json
 import random
 
 from . import tlc, ampio
-from .core import Outcome, ensure_repo_on_path, finish, pmap, Machinery
+from .core import Outcome, ensure_repo_on_path, finish, pmap, Machinery, chunked
 
 PROP = "C17"
 PAR_NAMES = ["D0_radius", "IS_p1_4pi", "IS_p2_KK", "f_scatt0", "s0_prod", "K(1)(1270)bar-::Spline::Gamma::3", "myPar_1", "a(1)(1260)+_mass"]
@@ -109,6 +109,7 @@ def gen_random(rng, big):
             "cart": rng.choice(["absent", "absent", "0", "1"]), "extra": rng.sample(EXTRAS, rng.randint(0, 2))}
 
 
+@chunked()
 def judge(cases, wd, o, what, module="AmpGen", consts=None):
     tf = wd / f"trace_{len(list(wd.glob('trace_*.json')))}.json"
     tf.write_text(json.dumps([{k: v for k, v in c.items() if k not in ("cid", "text", "reader", "names")} for c in cases]))
